@@ -3,6 +3,7 @@ pub mod c01_carriers;
 pub mod c02;
 pub mod c03;
 pub mod c04;
+pub mod c05;
 pub mod c06;
 pub mod c06_e2e;
 pub mod c11;
@@ -29,6 +30,7 @@ pub fn registry() -> Vec<(&'static str, CheckFn)> {
         ("C02", c02::run as CheckFn),
         ("C03", c03::run as CheckFn),
         ("C04", c04::run as CheckFn),
+        ("C05", c05::run as CheckFn),
         ("C06", c06::run as CheckFn),
         ("C11", c11::run as CheckFn),
         ("C13", c13::run as CheckFn),
